@@ -600,12 +600,15 @@ func (x *Exec) next(st *State, fr *Frame, v *ssa.Next) {
 		st.assume(Implies(ok, And(
 			Implies(Lt(b0, IntC(0x80)), And(Eq(r, b0), Eq(w, IntC(1)))),
 			Implies(Ge(b0, IntC(0x80)), And(Ge(r, IntC(0x80)), Le(r, IntC(0x10FFFF)), Le(IntC(1), w), Le(w, IntC(4)), Le(Add(pos, w), src.L[2]))))))
-		x.E.noteAssumption("UTF-8 range axiom: a byte below 0x80 is a one-byte rune of that value; a byte >= 0x80 starts a rune >= 0x80 of width 1..4")
+		cb := x.E.fresh("k", IntS)
+		st.assume(Forall([]*Term{cb}, Implies(And(ok, Lt(pos, cb), Lt(cb, Add(pos, w))), Ge(x.strByte(st, src, cb), IntC(0x80)))))
+		x.E.noteAssumption("UTF-8 range axiom: a byte below 0x80 is a one-byte rune of that value; a byte >= 0x80 starts a rune >= 0x80 of width 1..4 whose continuation bytes are all >= 0x80")
 		st.ghost[key] = Ite(ok, Add(pos, w), pos)
 		if x.dry {
 			x.dryEff.ghost[key] = true
 		}
 		st.ghost[key+"!cur"] = pos
+		st.ghost["rangeiter"] = Var(key, IntS)
 		st.regs[v] = Val{T: tup, L: []*Term{ok, pos, r}}
 		return
 	}
@@ -622,4 +625,20 @@ func (x *Exec) next(st *State, fr *Frame, v *ssa.Next) {
 		x.dryEff.ghost[key] = true
 	}
 	st.regs[v] = Val{T: tup, L: L}
+}
+
+// rangeGhost: the position ghost of the function's range-over-string iterator.
+func (x *Exec) rangeGhost(st *State, suffix string) *Term {
+	var found *Term
+	n := 0
+	for k, t := range st.ghost {
+		if strings.HasPrefix(k, "iter!") && !strings.HasSuffix(k, "!cur") {
+			found = t
+			n++
+		}
+	}
+	if n == 1 {
+		return found
+	}
+	return nil
 }
